@@ -71,6 +71,10 @@ PARTIAL = ["Entropy: the occurrence counts, the summation order and the error/Na
            "model printed with a model of strconv's '%.3f' (exact binary value, ties to even, NaN / +Inf / -Inf, signed zero): "
            "byte for byte without logarithms, and with --log / the logo a cell may be the printed form of a value within 1e-12 "
            "(relative) of the model's (last place of math.Log); pseudo-counts a float64 does not hold exactly are not decided",
+           "command line `stats --per-sequences`, `stats gaps --count-profile`, `stats mutations --count-profile` "
+           "(Oracle/CliStatsSeq.lean): the bytes of the built binary = the library models + a model of the count-profile file "
+           "reader; not modelled (no claim): a profile header naming a character twice or a byte >= 128, counts of more than "
+           "18 digits, CRLF line ends, gzip-compressed or stdin profiles",
            "the model is stated for ASCII residues: CharStats / InformativeSites index 130-entry slices with unicode.ToUpper(rune) "
            "(bytes >= 130 panic in Go; only NumMutationsUniquePerSequence models that panic explicitly)",
            "CountDifferences on an alignment without sequences and CountProfile.CountsAt(len) were run-time panics: repaired "
@@ -364,6 +368,8 @@ def gen(rng, tier):
     for c in cligen.cases(rng, ['consensus', 'entropy', 'stats', 'gapstats', 'mutstats', 'charstats', 'alleles', 'alphabet', 'pssm', 'summary'], 40 if tier == "quick" else 400):
         yield c
     for c in cligen.cases(rng, ['mutlist', 'mutcount'], 30 if tier == "quick" else 600):
+        yield c
+    for c in cligen.cases(rng, ['perseq', 'gapsprof', 'mutsprof'], 40 if tier == "quick" else 800):
         yield c
     for _ in range(2 if tier == "quick" else 20):
         for argv in MULTI_CMDS:
